@@ -542,8 +542,12 @@ class Worker:
         preprocess = getattr(self, 'preprocess', None)
 
         while True:
-            if buffer.full():
-                with buffer._not_full:
+            with buffer._not_full:
+                # Test under the lock. Otherwise the consumer could drain the buffer
+                # (and notify) between the test and the wait; the notification would be
+                # lost and this thread would wait for ever, with the consumer waiting on
+                # the empty buffer.
+                while buffer.full():
                     buffer._not_full.wait()
 
             # Multiple workers in separate processes may be competing
